@@ -460,6 +460,8 @@ func runSched(c SCase) *hx.Outcome {
 	names := append(append([]string{}, hx.Bucket3()...), "solo")[:3]
 	known := map[string][]string{}
 	var kmu sync.Mutex
+	inPrefix := true
+	var fresh [][2]string // (mailbox, id) of every delivery made while or after A runs
 	apply := func(op COp, target string) (string, error) {
 		box := names[op.Box%len(names)]
 		id := "none"
@@ -470,10 +472,22 @@ func runSched(c SCase) *hx.Outcome {
 		kmu.Unlock()
 		switch op.K {
 		case "add":
-			nid, err := st.AddMessage(hx.NewDelivery(box, nil, nil, hx.BaseTime, "s", make([]byte, op.Size)))
+			// the prefix delivers mail that a retention scan will find expired; everything
+			// delivered while or after A runs is fresh and no scan may touch it
+			date := hx.BaseTime
+			kmu.Lock()
+			old := inPrefix
+			kmu.Unlock()
+			if old {
+				date = hx.BaseTime.Add(-48 * time.Hour)
+			}
+			nid, err := st.AddMessage(hx.NewDelivery(box, nil, nil, date, "s", make([]byte, op.Size)))
 			if err == nil {
 				kmu.Lock()
 				known[box] = append(known[box], nid)
+				if !old {
+					fresh = append(fresh, [2]string{box, nid})
+				}
 				kmu.Unlock()
 			}
 			return nid, err
@@ -513,6 +527,9 @@ func runSched(c SCase) *hx.Outcome {
 			return o
 		}
 	}
+	kmu.Lock()
+	inPrefix = false
+	kmu.Unlock()
 	// pause A at the chosen point
 	var hits atomic.Int32
 	reached := make(chan string, 1)
@@ -603,19 +620,22 @@ func runSched(c SCase) *hx.Outcome {
 	if aErr != nil {
 		o.Failf(pid+":op-error", "[%s] operation A (%s), paused at %s while %d operations ran, returned %v", c.Backend, c.A.K, c.Point, len(c.B), aErr)
 	}
-	// conservation
-	if c.A.K == "add" && aID != "" {
-		couldRemove := c.Cap > 0 || c.MaxKB > 0
-		for _, op := range c.B {
-			if names[op.Box%len(names)] == names[c.A.Box%len(names)] && (strings.HasPrefix(op.K, "remove") || strings.HasPrefix(op.K, "purge") || op.K == "scan") {
-				couldRemove = true
-			}
-			if op.K == "scan" {
-				couldRemove = true
-			}
+	// conservation: a fresh delivery (A's or one of B's) is present afterwards unless a limit
+	// could have evicted it or a removal/purge of its mailbox ran; a retention scan is no
+	// excuse, it may only take the expired mail of the prefix
+	_ = aID
+	cleared := map[string]bool{}
+	for _, op := range append([]COp{c.A}, c.B...) {
+		if strings.HasPrefix(op.K, "remove") || strings.HasPrefix(op.K, "purge") {
+			cleared[names[op.Box%len(names)]] = true
 		}
-		if m, err := st.GetMessage(names[c.A.Box%len(names)], aID); !couldRemove && (err != nil || m == nil) {
-			o.Failf(pid+":lost-delivery", "[%s] delivery returned id %s but the message is gone although nothing removed it", c.Backend, aID)
+	}
+	for _, f := range fresh {
+		if c.Cap > 0 || c.MaxKB > 0 || cleared[f[0]] {
+			continue
+		}
+		if m, err := st.GetMessage(f[0], f[1]); err != nil || m == nil {
+			o.Failf(pid+":lost-delivery", "[%s] A=%s paused at %s, B=%v: the delivery to %q that returned id %s is gone although no limit is set and nothing removed or purged that mailbox (get: %v)", c.Backend, c.A.K, c.Point, c.B, f[0], f[1], err)
 		}
 	}
 	if c.MaxKB > 0 {
